@@ -1,4 +1,4 @@
-\* the code as found (section 5, D12): P_C05_ListPeers MUST fail
+\* the code as found (section 5, D12, still a known finding): P_C05_ListPeers MUST fail
 SPECIFICATION Spec
 CONSTANTS
   p1 = p1
@@ -15,13 +15,15 @@ CONSTANTS
   MaxDisc = 1
   MaxGate = 0
   MaxHold = 1
-  MaxRemote = 3
+  MaxRemote = 2
   MaxRef = 2
   AllowFanout = FALSE
   FixD12 = FALSE
   RetryRechecks = TRUE
   RetryFanoutAware = TRUE
   ClosedOrdered = TRUE
+  DupClears = TRUE
+  MaxDup = 1
 INVARIANT TypeOK
 INVARIANT P_C05_WireTruth
 INVARIANT P_C05_ListPeers
